@@ -97,6 +97,7 @@ Definition sane : Prop :=
 End Sane.
 
 (* ---- small facts ---- *)
+Lemma le_plus2 x : (x <= x + 2)%Z. Proof. lia. Qed.
 Lemma isnil_true {A} (l : list A) : isnil l = true <-> l = [].
 Proof. destruct l; split; try reflexivity; discriminate. Qed.
 
@@ -577,7 +578,9 @@ Proof.
         assert (Bpost : is_post g = true) by (apply (is_post_iff (inner q B.p_redeem)); [exact Hmeth | exact R9]).
         rewrite Bpost, (Hkcode eq_refl). change (rt_path (rt_back B.HRedeem)) with B.p_redeem. rewrite R1, R4'. cbn [body_obs].
         unfold session_json. cbn [B.b_access B.b_refresh B.b_email]. rewrite N.eqb_refl. cbn [option_eqb]. rewrite !str_eqb_refl. cbn [andb].
-        apply andb_true_iff. split; apply Z.leb_le; lia.
+        apply andb_true_iff. split; apply Z.leb_le;
+          [apply Z.le_trans with (B.s_refresh_dl s); [exact R2 | apply le_plus2]
+          |apply Z.le_trans with (B.s_lifetime_dl s); [exact R3 | apply le_plus2]].
       * rewrite Hfield. destruct (has_field (B.rs_body rs)) eqn:Ehf; [|reflexivity].
         exfalso. rewrite Hstat, (Hjs eq_refl) in E200. discriminate E200.
     + rewrite Hfield, Hstat. destruct (has_field (B.rs_body rs)); [rewrite (Hjs eq_refl); reflexivity|]. cbn. destruct (_ && _); reflexivity.
@@ -601,7 +604,7 @@ Proof.
   destruct Hrt as [Hrt|Hrt]; rewrite Hrt in Hs.
   - assert (Hsecf : r_secured resp = false).
     { destruct (r_secured resp) eqn:E; [|reflexivity]. exfalso. apply Hs. apply Hiff. reflexivity. }
-    apply no_effect_holds; [exact (Hno Hsecf) | rewrite Hrt; discriminate | rewrite Hrt; exact I].
+    apply no_effect_holds; [exact (Hno Hsecf) | unfold inside; rewrite Hrt; discriminate | rewrite Hrt; exact I].
   - destruct Hs as [slug [k [rest [Hr Hnin]]]]. destruct (Hunk slug k rest Hr Hnin) as [Hne _].
     apply no_effect_holds; [exact Hne | | rewrite Hrt; exact I].
     intros _. apply Hiff. exists slug, k, rest. exact Hr.
@@ -628,3 +631,24 @@ Theorem monitor_accepts_model : forall (lower : str -> str) d q o an now_ns g,
   rule_guard lower d = true -> sane d q o an g ->
   holds lower d now_ns an g (obs_of d (g_state g) (serve lower d q o an now_ns)) = true.
 Proof. intros. apply holds_model; assumption. Qed.
+
+(* the hypothesis [sane] is satisfiable: the bookkeeping a generator keeps for the example request *)
+Definition ex_ghost : ghost :=
+  {| g_route := RtSignIn; g_kind := F.Google; g_method := B.m_get; g_ids := [d_client_id Ex.d]; g_secrets := [];
+     g_uri := Ex.uri; g_sig := G.SigTag (G.Mac (d_client_secret Ex.d) (Ex.uri ++ G.dec 1000)); g_ts := [49;48;48;48];
+     g_outer := []; g_state := [120]; g_cookie := F.CkSealed F.KCookie (to_flow Ex.sess); g_csrf := None;
+     g_cb_state := None; g_cb_code := []; g_vouched := None; g_code := None; g_from := None |}.
+
+Example sane_nonvacuous :
+  sane Ex.d Ex.q_sign_in Ex.o Ex.an ex_ghost /\
+  rule_guard lower_ascii Ex.d = true /\
+  holds lower_ascii Ex.d (1100 * ns)%Z Ex.an ex_ghost
+        (obs_of Ex.d (g_state ex_ghost) (serve lower_ascii Ex.d Ex.q_sign_in Ex.o Ex.an (1100 * ns)%Z)) = true.
+Proof.
+  split; [|split; [vm_compute; reflexivity | vm_compute; reflexivity]].
+  unfold sane. split; [reflexivity|]. cbn [g_route ex_ghost]. exists [103].
+  split. { repeat split; try (vm_compute; reflexivity). vm_compute. discriminate. }
+  cbv zeta. split. { repeat split; vm_compute; reflexivity. }
+  split; [vm_compute; reflexivity|]. split; [intros _; left; reflexivity|].
+  split; [vm_compute; reflexivity|]. split; [split; vm_compute; reflexivity | vm_compute; reflexivity].
+Qed.
